@@ -25,7 +25,8 @@ from vlib import core
 from vlib.core import sh2
 
 PROC = {0: "baseline", 1: "ext12", 2: "prog8", 3: "prog12", 4: "lossless", 5: "baseline-fill-garbage",
-        6: "seq-shared-qslot-dqt-between-scans", 7: "prog-shared-qslot-dqt-between-scans"}
+        6: "seq-shared-qslot-dqt-between-scans", 7: "prog-shared-qslot-dqt-between-scans",
+        8: "baseline-350-bytes-per-block"}
 
 
 def early_api(c1, rows, reps):
@@ -66,6 +67,62 @@ def gen_line(sid, p):
     return "gen %d %d %d %d %d %d %d %d %d %d %d%s" % (
         sid, p["proc"], p["w"], p["h"], p["nc"], p["sub"], p["q"], p["rst"], p["seed"], p["jm"], len(p["marks"]),
         "".join(" 0x%02X %d" % m for m in p["marks"]))
+
+
+def expensive_stream(rng):
+    """A valid baseline stream whose blocks cost ~350 bytes each: custom Huffman tables give the frequent AC symbol a
+    16-bit code, the magnitudes are all-one bits, so nearly every entropy byte is 0xFF + stuffed 0x00 (no restart markers).
+    The fast Huffman path needs BUFSIZE = 512 bytes per block in the buffer for such an MCU."""
+    nc = rng.choice([1, 1, 3])
+    bw, bh = rng.range(1, 3), rng.range(1, 2)          # blocks
+    big = rng.choice([0x0A, 0x0A, 0x09])                # (run 0, size 10 / 9) gets the 16-bit code 1111111111111110
+    acsyms = [0x00, 0xF0, 0x01, 0x02, 0x03, 0x04, 0x11, 0x12, 0x21, 0x05, 0x06, 0x07, 0x08, 0x09 if big == 0x0A else 0x0A, 0x31, big]
+    dcsyms = list(range(12))
+    out = bytearray(b"\xff\xd8")
+    for t in range(1 if nc == 1 else 2):
+        out += b"\xff\xdb\x00\x43" + bytes([t]) + bytes([1] * 64)
+    out += b"\xff\xc0" + bytes([0, 8 + 3 * nc, 8, 0, 8 * bh, 0, 8 * bw, nc])
+    for ci in range(nc):
+        out += bytes([ci + 1, 0x11, 0 if ci == 0 else 1])
+    out += b"\xff\xc4" + bytes([0, 19 + 12, 0x00]) + bytes([1] * 12 + [0] * 4) + bytes(dcsyms)      # DC: lengths 1..12
+    out += b"\xff\xc4" + bytes([0, 19 + 16, 0x10]) + bytes([1] * 16) + bytes(acsyms)                # AC: lengths 1..16
+    out += b"\xff\xda" + bytes([0, 6 + 2 * nc, nc])
+    for ci in range(nc):
+        out += bytes([ci + 1, 0x00])
+    out += bytes([0, 63, 0])
+    accode = {sym: ((1 << (i + 1)) - 2, i + 1) for i, sym in enumerate(acsyms)}      # canonical: i ones then a zero
+    dccode = {sym: ((1 << (i + 1)) - 2, i + 1) for i, sym in enumerate(dcsyms)}
+    bits = []
+
+    def put(v, n):
+        for k in range(n - 1, -1, -1):
+            bits.append((v >> k) & 1)
+    sz = big & 15
+    for blk in range(bw * bh * nc):
+        c, l = dccode[0]
+        put(c, l)                                        # DC difference 0
+        style = rng.choice([0, 0, 0, 1, 2])
+        if style == 2:                                   # cheap block: EOB at once
+            c, l = accode[0x00]
+            put(c, l)
+            continue
+        ncoef = 63 if style == 0 else rng.range(30, 62)
+        for k in range(ncoef):
+            c, l = accode[big]
+            put(c, l)
+            put((1 << sz) - 1 if rng.chance(9, 10) else 0, sz)      # +(2^sz - 1): all ones; sometimes -(2^sz - 1): all zeros
+        if ncoef < 63:
+            c, l = accode[0x00]
+            put(c, l)
+    while len(bits) % 8:
+        bits.append(1)
+    for i in range(0, len(bits), 8):
+        v = int("".join(map(str, bits[i:i + 8])), 2)
+        out.append(v)
+        if v == 0xFF:
+            out.append(0)
+    out += b"\xff\xd9"
+    return bytes(out)
 
 
 def first_sos_end(b):
@@ -152,6 +209,9 @@ def run(ctx):
             ctx.log("generator refused", gen_line(0, p), err[-200:])
             continue
         streams.append(dict(hex=t[3], params=p, origin=gen_line(0, p)))
+    xrng = core.SplitMix64(ctx.seed * 600011 + 29)
+    for i in range(ctx.n(4, 30)):
+        streams.append(dict(hex=expensive_stream(xrng).hex(), params=dict(proc=8), origin="python:expensive_stream #%d" % i))
     ctx.log("streams: %d (%d bytes total)" % (len(streams), sum(len(s["hex"]) // 2 for s in streams)))
 
     import time
@@ -544,6 +604,41 @@ def run(ctx):
                               signature="memdst-mismatch:proc%s" % cmd.split()[1])
             ctx.count("memdst", 1, ("memdst", line[:60]))
     tm["memdst"] = time.time() - t0
+
+    # --------- every destination buffer size (never refusing) for every entropy encoder with restart markers
+    t0 = time.time()
+    drng = core.SplitMix64(ctx.seed * 8191 + 3)
+    dcmds = []
+    for i in range(ctx.n(12, 100)):
+        mode = [4, 4, 2, 10, 12, 0, 4, 3, 1, 4, 2, 12][i % 12]
+        nc = drng.choice([1, 3])
+        q = drng.choice([2, 8, 8, 12, 16]) if mode == 4 else drng.choice([50, 75, 95])
+        if mode == 4 and nc == 3 and q < 3:
+            q = 8
+        rst = drng.choice([-1, -1, -2]) if mode == 4 else drng.choice([1, 1, 2, 3, -1])
+        dcmds.append("dst %d %d %d %d %d %d %d %d %d 0" % (mode, drng.range(16, 48), drng.range(12, 40), nc,
+                                                         0 if mode == 4 else drng.below(5), q, rst, drng.below(1 << 30), ctx.n(260, 700)))
+    for fl in flavours:
+        rc, res, err = Runner(ctx, exes[fl], fl).run(dcmds)
+        if rc != 0 or len(res) < len(dcmds):
+            idx = min(len(res), len(dcmds) - 1)
+            ctx.violation("encoder with a small destination buffer crashed/aborted (%s build, rc=%d): %s" % (fl, rc, err[-300:]),
+                          {"kind": "dst", "cmd": dcmds[idx], "flavour": fl}, signature="crash:dst:mode%s" % dcmds[idx].split()[1])
+            continue
+        for cmd, line in zip(dcmds, res):
+            t = line.split()
+            if len(t) >= 3 and t[2] == "ok":
+                total_sched += int(t[1])
+            elif line.startswith("T err"):
+                ctx.log("dst generator refused", cmd)
+            else:
+                size = line.split("size=")[1].split()[0] if "size=" in line else "0"
+                one = " ".join(cmd.split()[:-1]) + " " + size
+                ctx.violation("compressed bytes depend on the destination buffer size (mode %s, %s build): %s" % (cmd.split()[1], fl, line[:130]),
+                              {"kind": "dst", "cmd": one, "flavour": fl, "result": line},
+                              signature="dst-size-mismatch:mode%s" % cmd.split()[1])
+            ctx.count("dst", 1, ("dst", cmd.split()[1], line[:50]))
+    tm["dst"] = time.time() - t0
     if drv:
         ctx.cov["traces_validated_against_impl"] = corr
     ctx.cov["model_impl_disagreements"] = disagree
@@ -612,6 +707,14 @@ def replay(ctx, exes, drv):
         ctx.count("replay-prog", 1, tuple(ls[:2]))
         if rc != 0 or len(ls) < 2 or ls[0] != ls[1]:
             ctx.violation("jdphuff.c MCU decoder: result depends on the chunking of its input", r, signature=r.get("signature"))
+        return
+    if r.get("kind") == "dst":
+        rc, res, err = Runner(ctx, exe, fl).run([r["cmd"]])
+        line = res[0] if res else "<crash rc=%d>" % rc
+        ctx.count("replay-dst", 1, line)
+        if " ok " not in line:
+            ctx.violation("compressed bytes depend on the destination buffer size: " + line[:120], r, signature=r.get("signature"))
+        ctx.log("replay:", line)
         return
     if r.get("kind") == "memdst":
         rc, res, err = Runner(ctx, exe, fl).run([r["cmd"]])
